@@ -49,7 +49,8 @@ fn build(state: &str, dir: PathBuf) -> Ctx {
         "snapdue" => (1usize, 1u64, 100usize, false, 1000usize),
         "hard" => (1000, 1 << 20, 2, false, 1000),
         "learned" => (1000, 1 << 20, 100, true, 1000),
-        "full" => (1000, 1 << 20, 100, false, 7),
+        "full" => (2, 1, 100, false, 7),
+        "snap2" => (2, 1, 100, false, 1000),
         _ => (1000, 1 << 20, 100, false, 1000),
     };
     let strat: Arc<dyn CacheStrategy> = if learned {
@@ -87,7 +88,10 @@ fn build(state: &str, dir: PathBuf) -> Ctx {
     for i in 1..=4u64 {
         eng.insert(i, fam.input(i), m(i)).expect("setup insert");
     }
-    eng.flush_hot_tier(true).expect("setup flush");
+    if state != "noflush" {
+        // "noflush": the recent-write tier has never been drained (age bookkeeping takes its first-drain branch)
+        eng.flush_hot_tier(true).expect("setup flush");
+    }
     if state != "hard" {
         eng.insert(1, fam.input(1), m(1)).expect("setup insert");
         eng.insert(2, fam.input(2), m(2)).expect("setup insert");
@@ -296,6 +300,99 @@ fn program_of(log: &[verif::Ev], ids: &mut LockIds) -> Vec<Value> {
     prog
 }
 
+/// One gated execution of per-thread programs on a fresh engine. Returns (report, threads_stuck).
+fn run_once(state: &str, progs: &[Vec<Value>], sched: Vec<verif::Grant>, want_recover: bool, dir: PathBuf) -> (Value, bool) {
+    verif::set_mode(verif::MODE_OFF);
+    let ctx = Arc::new(build(state, dir));
+    let (init, _) = ctx.proj.census_json(&census(ctx.eng.cold_tier()));
+    let nthreads = progs.len();
+    let hist: Arc<Mutex<Vec<Value>>> = Arc::new(Mutex::new(Vec::new()));
+    let seq = Arc::new(AtomicUsize::new(0));
+    let finished = Arc::new(AtomicUsize::new(0));
+    let barrier = Arc::new(Barrier::new(nthreads + 1));
+    let _ = verif::take_log();
+    verif::install_schedule(sched.clone());
+    verif::set_mode(verif::MODE_GATE);
+    let mut handles = Vec::new();
+    for (ti, prog) in progs.iter().cloned().enumerate() {
+        let (ctx, hist, seq, finished, barrier) = (ctx.clone(), hist.clone(), seq.clone(), finished.clone(), barrier.clone());
+        handles.push(std::thread::spawn(move || {
+            let tid = ti as u32 + 1;
+            barrier.wait();
+            verif::register(tid);
+            for (oi, op) in prog.iter().enumerate() {
+                let s = seq.fetch_add(1, Ordering::SeqCst);
+                hist.lock().unwrap().push(json!({"ev": "inv", "t": tid, "i": oi + 1, "seq": s, "op": op}));
+                let r = exec(&ctx, op);
+                let s = seq.fetch_add(1, Ordering::SeqCst);
+                hist.lock().unwrap().push(json!({"ev": "res", "t": tid, "i": oi + 1, "seq": s, "op": op, "r": r}));
+            }
+            verif::unregister();
+            finished.fetch_add(1, Ordering::SeqCst);
+        }));
+    }
+    barrier.wait();
+    let ctl = std::thread::spawn(|| verif::controller(Duration::from_secs(8)));
+    let t0 = Instant::now();
+    let mut outcome = "hang";
+    let mut frames: Vec<String> = Vec::new();
+    loop {
+        if finished.load(Ordering::SeqCst) == nthreads {
+            outcome = "completed";
+            break;
+        }
+        let dl = parking_lot::deadlock::check_deadlock();
+        if !dl.is_empty() {
+            outcome = "deadlock";
+            for cyc in &dl {
+                for th in cyc {
+                    let bt = format!("{:?}", th.backtrace());
+                    let mut f: Vec<&str> = bt.lines().filter(|l| l.contains("kyrodb_engine::")).map(|l| l.trim()).collect();
+                    f.truncate(4);
+                    frames.push(f.join(" <- "));
+                }
+            }
+            break;
+        }
+        if t0.elapsed() > Duration::from_secs(10) {
+            break;
+        }
+        std::thread::sleep(Duration::from_millis(if t0.elapsed() < Duration::from_millis(50) { 1 } else { 10 }));
+    }
+    let (steps, diverged, _free) = verif::gate_status();
+    let h = hist.lock().unwrap().clone();
+    let mut out = json!({"outcome": outcome, "sched_len": sched.len(), "steps_done": steps, "diverged": diverged, "frames": frames,
+                         "history": h, "init": init});
+    if outcome != "completed" {
+        return (out, true);
+    }
+    verif::set_mode(verif::MODE_OFF);
+    verif::release_all();
+    let _ = ctl.join();
+    for hdl in handles {
+        let _ = hdl.join();
+    }
+    let (live, extra) = ctx.proj.census_json(&census(ctx.eng.cold_tier()));
+    out["live"] = json!({"state": live, "extra": extra});
+    let dir = ctx.dir.clone();
+    if want_recover {
+        let bcfg = ctx.bcfg.clone();
+        let proj = Projector::new(ctx.fam.clone(), 12, 6);
+        drop(ctx);
+        match guarded(|| recover_backend(&bcfg, &dir)) {
+            Ok(nb) => {
+                let (c, extra) = proj.census_json(&census(&nb));
+                out["recovered"] = json!({"outcome": "ok", "state": c, "extra": extra});
+            }
+            Err(e) => out["recovered"] = json!({"outcome": "failed", "why": e.to_string()}),
+        }
+    } else {
+        drop(ctx);
+    }
+    let _ = std::fs::remove_dir_all(&dir);
+    (out, false)
+}
+
 fn main() {
     quiet_panics();
     let args: Vec<String> = std::env::args().collect();
@@ -309,7 +406,16 @@ fn main() {
             verif::set_capture_sites(true);
             verif::register(1);
             let mut sites_all: HashMap<usize, String> = HashMap::new();
-            for (name, spec) in catalogue() {
+            // either the named catalogue, or caller-supplied programs (sequences of operation specs)
+            let items: Vec<(String, Value)> = match arg_value(&args, "--progs") {
+                Some(p) => {
+                    let v: Vec<Value> = serde_json::from_str(&p).expect("progs json");
+                    v.into_iter().enumerate().map(|(i, x)| (format!("prog{}", i + 1), x)).collect()
+                }
+                None => catalogue().into_iter().map(|(n, s)| (n.to_string(), s)).collect(),
+            };
+            for (name, spec) in items {
+                let name = name.as_str();
                 if let Some(o) = &only {
                     if !o.iter().any(|x| x == name) {
                         continue;
@@ -325,7 +431,10 @@ fn main() {
                     }
                 }
                 ids.frozen = true;
-                let res = exec(&ctx, &spec);
+                let res = match spec.as_array() {
+                    Some(seq) => Value::Array(seq.iter().map(|op| exec(&ctx, op)).collect()),
+                    None => exec(&ctx, &spec),
+                };
                 let log = verif::take_log();
                 for (addr, site) in verif::take_sites() {
                     if let Some(l) = ids.map.get(&addr) {
@@ -343,103 +452,45 @@ fn main() {
             sites.sort();
             println!("{}", json!({"sites": sites.into_iter().map(|(l, s)| json!({"l": l, "site": s})).collect::<Vec<_>>()}));
         }
-        "run" => {
+        "run" | "runmany" => {
             let progs: Vec<Vec<Value>> = serde_json::from_str(&arg_value(&args, "--progs").expect("--progs")).expect("progs json");
-            let sched: Vec<verif::Grant> = arg_value(&args, "--sched")
-                .unwrap_or_default()
-                .split(',')
-                .filter(|s| !s.is_empty())
-                .map(|s| {
-                    let mut p = s.split(':');
-                    verif::Grant { tid: p.next().unwrap().parse().unwrap(), blocks: p.next().unwrap_or("0") == "1" }
-                })
-                .collect();
             let want_recover = arg_flag(&args, "--recover");
-            let ctx = Arc::new(build(&state, root.join("run")));
-            let nthreads = progs.len();
-            let hist: Arc<Mutex<Vec<Value>>> = Arc::new(Mutex::new(Vec::new()));
-            let seq = Arc::new(AtomicUsize::new(0));
-            let finished = Arc::new(AtomicUsize::new(0));
-            let barrier = Arc::new(Barrier::new(nthreads + 1));
-            verif::install_schedule(sched.clone());
-            verif::set_mode(verif::MODE_GATE);
-            let mut handles = Vec::new();
-            for (ti, prog) in progs.into_iter().enumerate() {
-                let (ctx, hist, seq, finished, barrier) = (ctx.clone(), hist.clone(), seq.clone(), finished.clone(), barrier.clone());
-                handles.push(std::thread::spawn(move || {
-                    let tid = ti as u32 + 1;
-                    barrier.wait();
-                    verif::register(tid);
-                    for (oi, op) in prog.iter().enumerate() {
-                        let s = seq.fetch_add(1, Ordering::SeqCst);
-                        hist.lock().unwrap().push(json!({"ev": "inv", "t": tid, "i": oi + 1, "seq": s, "op": op}));
-                        let r = exec(&ctx, op);
-                        let s = seq.fetch_add(1, Ordering::SeqCst);
-                        hist.lock().unwrap().push(json!({"ev": "res", "t": tid, "i": oi + 1, "seq": s, "op": op, "r": r}));
-                    }
-                    verif::unregister();
-                    finished.fetch_add(1, Ordering::SeqCst);
-                }));
-            }
-            barrier.wait();
-            let ctl = std::thread::spawn(|| verif::controller(Duration::from_secs(8)));
-            let t0 = Instant::now();
-            let mut outcome = "hang";
-            let mut frames: Vec<String> = Vec::new();
-            loop {
-                if finished.load(Ordering::SeqCst) == nthreads {
-                    outcome = "completed";
-                    break;
-                }
-                let dl = parking_lot::deadlock::check_deadlock();
-                if !dl.is_empty() {
-                    outcome = "deadlock";
-                    for cyc in &dl {
-                        for th in cyc {
-                            let bt = format!("{:?}", th.backtrace());
-                            let mut f: Vec<&str> = bt.lines().filter(|l| l.contains("kyrodb_engine::")).map(|l| l.trim()).collect();
-                            f.truncate(4);
-                            frames.push(f.join(" <- "));
-                        }
-                    }
-                    break;
-                }
-                if t0.elapsed() > Duration::from_secs(10) {
-                    break;
-                }
-                std::thread::sleep(Duration::from_millis(10));
-            }
-            let (steps, diverged, _free) = verif::gate_status();
-            let h = hist.lock().unwrap().clone();
-            let mut out = json!({"outcome": outcome, "sched_len": sched.len(), "steps_done": steps, "diverged": diverged, "frames": frames, "history": h});
-            if outcome == "completed" {
-                verif::set_mode(verif::MODE_OFF);
-                let _ = ctl.join();
-                for hdl in handles {
-                    let _ = hdl.join();
-                }
-                let (live, extra) = ctx.proj.census_json(&census(ctx.eng.cold_tier()));
-                out["live"] = json!({"state": live, "extra": extra});
-                if want_recover {
-                    let dir = ctx.dir.clone();
-                    let bcfg = ctx.bcfg.clone();
-                    let proj = Projector::new(ctx.fam.clone(), 12, 6);
-                    drop(ctx);
-                    match guarded(|| recover_backend(&bcfg, &dir)) {
-                        Ok(nb) => {
-                            let (c, extra) = proj.census_json(&census(&nb));
-                            out["recovered"] = json!({"outcome": "ok", "state": c, "extra": extra});
-                        }
-                        Err(e) => out["recovered"] = json!({"outcome": "failed", "why": e.to_string()}),
-                    }
-                }
+            let parse_sched = |txt: &str| -> Vec<verif::Grant> {
+                txt.split(',')
+                    .filter(|s| !s.trim().is_empty())
+                    .map(|s| {
+                        let mut p = s.trim().split(':');
+                        verif::Grant { tid: p.next().unwrap().parse().unwrap(), blocks: p.next().unwrap_or("0") == "1" }
+                    })
+                    .collect()
+            };
+            if mode == "run" {
+                let sched = parse_sched(&arg_value(&args, "--sched").unwrap_or_default());
+                let (out, stuck) = run_once(&state, &progs, sched, want_recover, root.join("run"));
                 println!("{}", out);
                 let _ = std::fs::remove_dir_all(&root);
-                std::process::exit(0);
+                std::process::exit(if stuck { 3 } else { 0 });
             }
-            println!("{}", out);
+            // runmany: one schedule per stdin line; stops (exit 3) at the first run whose threads are stuck
+            let stdin = std::io::stdin();
+            let mut line = String::new();
+            let mut n = 0usize;
+            loop {
+                line.clear();
+                if stdin.read_line(&mut line).unwrap_or(0) == 0 {
+                    break;
+                }
+                let sched = parse_sched(line.trim());
+                let (mut out, stuck) = run_once(&state, &progs, sched, want_recover, root.join(format!("run{n}")));
+                out["n"] = json!(n);
+                println!("{}", out);
+                n += 1;
+                if stuck {
+                    let _ = std::fs::remove_dir_all(&root);
+                    std::process::exit(3);
+                }
+            }
             let _ = std::fs::remove_dir_all(&root);
-            // threads are stuck for good: leave without joining
             std::process::exit(0);
         }
         _ => {
